@@ -3,6 +3,7 @@ package c05
 import (
 	"regexp"
 	"strconv"
+	"strings"
 
 	"verif/harness/internal/gen"
 	"verif/harness/internal/model"
@@ -62,6 +63,7 @@ type analysis struct {
 	unclear     bool   // some key is not clear under the option set (empty segment, overlapping separators)
 
 	stripBrackets bool
+	nilConts      bool // nil nodes may be spelled as a nil map / nil slice, which is an empty container rather than a nil value (repr-roundtrip)
 
 	shared             int // containers assembled from >= 2 spellings
 	contTwice          int // containers for which two container values were given
@@ -73,6 +75,19 @@ type analysis struct {
 	decoyKeys          int // keys that contain a part of the separator or another separator and stay whole
 	escapedKeys        int // keys in brackets under EscapePath
 	numNames           int // integer literals that are names (numeric keys enabled, or above MaxIdx)
+
+	// the edge of the key alphabet
+	emptyKeys    int // keys "" (one segment)
+	emptyInner   int // dotted keys with an empty segment between two others ("a..c")
+	emptyLead    int // dotted keys that begin with the separator (".x")
+	emptyTrail   int // dotted keys that end with the separator ("x.")
+	onlySeps     int // keys that consist of separators only (".", "..")
+	blankSegs    int // segments that are blank or begin / end with white space
+	oddIdx       int // index segments not in plain decimal ("+1", "-0", "00", "0x1", "010")
+	oddNum       int // names that look numeric but are no index under any generated option set ("-1", 2^63-1 and above, other digits)
+	longSegs     int // segments of >= 100 bytes
+	otherSepSegs int // segments that are the separator of another option set
+	caseSegs     int // segments with an upper-case letter
 }
 
 var decoyChars = regexp.MustCompile(`[^\pL\pN]`)
@@ -80,6 +95,10 @@ var decoyChars = regexp.MustCompile(`[^\pL\pN]`)
 func (a *analysis) addVal(n *mnode, v *gen.Tree) {
 	switch v.K {
 	case "nil":
+		if a.nilConts {
+			// (met by a primitive at the same path - two spellings of one list index - either outcome is accepted)
+			n.contVals++
+		}
 	case "obj":
 		n.contVals++
 		seen := map[string]bool{}
@@ -102,6 +121,7 @@ func (a *analysis) addVal(n *mnode, v *gen.Tree) {
 			if multi {
 				a.dotted++
 			}
+			a.noteOdd(k, segs)
 			if len(segs) > a.maxSegs {
 				a.maxSegs = len(segs)
 			}
@@ -133,6 +153,65 @@ func (a *analysis) addVal(n *mnode, v *gen.Tree) {
 	default:
 		n.prims++
 		n.pval = v
+	}
+}
+
+var isSeparator = func() map[string]bool {
+	m := map[string]bool{}
+	for _, s := range separators {
+		m[s] = true
+	}
+	return m
+}()
+
+var oddNumber = regexp.MustCompile(`^[+-]?[\pN_]+$`)
+
+// noteOdd counts the keys at the edge of the alphabet (class labels only).
+func (a *analysis) noteOdd(k string, segs []string) {
+	if len(segs) == 1 {
+		if k == "" {
+			a.emptyKeys++
+		}
+	} else {
+		empty := 0
+		for i, s := range segs {
+			if s != "" {
+				continue
+			}
+			empty++
+			switch {
+			case i == 0:
+				a.emptyLead++
+			case i == len(segs)-1:
+				a.emptyTrail++
+			default:
+				a.emptyInner++
+			}
+		}
+		if empty == len(segs) {
+			a.onlySeps++
+		}
+	}
+	for _, s := range segs {
+		if s != "" && strings.TrimSpace(s) != s {
+			a.blankSegs++
+		}
+		if len(s) >= 100 {
+			a.longSegs++
+		}
+		if s != a.o.Sep && isSeparator[s] {
+			a.otherSepSegs++
+		}
+		if strings.ToLower(s) != s {
+			a.caseSegs++
+		}
+		if i, ok := a.o.index(s, len(segs) > 1); ok {
+			if strconv.Itoa(i) != s {
+				a.oddIdx++
+			}
+		} else if _, lit := model.IndexOf(s, 1<<62); !lit && oddNumber.MatchString(s) {
+			a.oddNum++
+		}
 	}
 }
 
@@ -195,7 +274,11 @@ func analyse(f *gen.Tree, o OptSet) *analysis { return analyseWith(f, o, false) 
 // brackets"; whether the brackets remain part of the name is not stated, so
 // both readings are computed (stripBrackets) and either is accepted.
 func analyseWith(f *gen.Tree, o OptSet, stripBrackets bool) *analysis {
-	a := &analysis{o: o, root: &mnode{}, stripBrackets: stripBrackets}
+	return analyseAs(f, o, stripBrackets, false)
+}
+
+func analyseAs(f *gen.Tree, o OptSet, stripBrackets, nilConts bool) *analysis {
+	a := &analysis{o: o, root: &mnode{}, stripBrackets: stripBrackets, nilConts: nilConts}
 	a.addVal(a.root, f)
 	a.root.contVals = 0 // the input itself is not a second spelling of anything
 	a.walk(a.root, false)
